@@ -491,6 +491,35 @@ def r11_6(run):
                f"op_kwargs {sorted(ka)}" if not problems else "; ".join(problems) + ": the same ufunc call behaves differently depending on the kind of out= target")
 
 
+def r11_7(run):
+    """Tensor methods / properties that route to Tensor._op are stateless: each evaluation records a fresh operation and returns its result.  A
+    method that remembers an earlier result on `self` (a cache, a weak reference) and hands it out again behaves differently from its sibling
+    spellings (x.T vs x.transpose() vs np.transpose(x)): the remembered view may belong to a graph that backward() already cleared, so new
+    computations through it no longer reach x."""
+    T = run.project.cls("mygrad.tensor_base.Tensor")
+    engine = {"_op", "_in_place_op", "_replay_op"}
+    n = 0
+    for name, m in sorted(T.methods.items()):
+        if name in engine:
+            continue
+        calls = [c for c in own_nodes(m.node) if isinstance(c, ast.Call) and isinstance(c.func, ast.Attribute) and c.func.attr == "_op"]
+        if not calls:
+            continue
+        n += 1
+        stores = [st for st in own_nodes(m.node) if isinstance(st, (ast.Assign, ast.AugAssign, ast.AnnAssign)) and any(
+            isinstance(t, ast.Attribute) and norm(t.value) == "self" for t in (st.targets if isinstance(st, ast.Assign) else [st.target]))]
+        rets = [r for r in own_nodes(m.node) if isinstance(r, ast.Return) and r.value is not None]
+        odd = [r for r in rets if not (isinstance(r.value, ast.Call) and isinstance(r.value.func, ast.Attribute) and r.value.func.attr == "_op")
+               and norm(r.value) not in ("self", "NotImplemented")]
+        ok = not stores and not odd
+        bad = stores[0] if stores else (odd[0] if odd else None)
+        run.ob("R11.7", loc(m, bad if bad is not None else m.node), m.short, f"Tensor.{name} evaluates its operation afresh on every call", ok,
+               "no state kept on self; every return is the _op(...) result" if ok else
+               (f"`{norm(stores[0])[:50]}` keeps state on the tensor" if stores else f"`return {norm(odd[0].value)[:40]}` is not the result of this call's operation") +
+               ": an earlier result can be handed out again (possibly a view whose graph was already cleared), unlike the function / NumPy spellings")
+    run.count("Tensor methods routing to _op", n)
+
+
 def check(run):
     run.rule("R11.1", "operator dunders route to the Operation whose numpy_ufunc is the language-defined kernel, with the right operand order, "
              "in-place forms via _in_place_op returning self", floor=22)
@@ -507,3 +536,5 @@ def check(run):
     run.do(r11_4, reg)
     run.do(r11_5)
     run.do(r11_6)
+    run.rule("R11.7", "Tensor methods/properties that route to _op keep no state on self and return this call's result", floor=25)
+    run.do(r11_7)
